@@ -8,7 +8,7 @@ import sys
 HERE = os.path.dirname(os.path.abspath(__file__))
 sys.path.insert(0, HERE)
 
-TRANSLATORS = ["translate_registration"]  # module names
+TRANSLATORS = ["translate_registration", "translate_tables"]  # module names
 
 
 def write_if_changed(path, txt):
